@@ -34,6 +34,7 @@ class exclusive_call:
     params = {"args": lambda ctx: VTuple([SV(fresh_val("a0")), SV(fresh_val("a1"))]), "kwargs": lambda ctx: VDict({"k": SV(fresh_val("kv"))})}
     result = TAny()
     has_events = True
+    transparent = True         # a caller that holds the real closure (accept as decorated, below in runtime.py) executes the wrapper's body itself
 
     def closure_env(ctx, I, bound):
         env = {"fnc": _sym(ctx, "fnc", Fnc), "fnc_guard": _sym(ctx, "guard", Lock)}
